@@ -5,7 +5,7 @@ import sys, os, subprocess, json, shutil, glob, re, time
 sid, prop, wt = sys.argv[1:4]
 checkprops = sys.argv[4:] or [prop]
 env = dict(os.environ, GOFLAGS="-mod=mod", GOPROXY="off")
-seed = os.path.join(wt, "_seed")
+seed = os.environ.get("SEED_DIR", os.path.join(wt, "_seed"))
 patch = os.path.join(seed, "patch.diff")
 def run(cmd, cwd, timeout=900):
     p = subprocess.run(cmd, cwd=cwd, shell=True, env=env, capture_output=True, text=True, timeout=timeout)
@@ -41,12 +41,24 @@ meta["confirmed"] = ok
 print(f"seed {sid}: apply={rca} demo_without={rc0} demo_with={rc1} suite_with={rcb or rcp} -> {'CONFIRMED' if ok else 'REJECTED'}")
 if not ok:
     print(out0[-400:], out1[-400:], outb[-400:])
-# run our checks against /repo with the patch
+# run our checks against a scratch copy of /repo (HEAD) with the patch applied; /repo and
+# /verif/evidence are not touched
 det = {}
-rc, o = run(f"git -C /repo apply {patch}", "/repo")
+SR, SV = "/tmp/seedrepo", "/tmp/seedverif"
+if not os.path.exists(SR):
+    run(f"git -C /repo worktree add -q {SR} HEAD", "/repo")
+run("git checkout -q --detach $(git -C /repo rev-parse HEAD) && git checkout -- . && git clean -fdq", SR)
+os.makedirs(SV, exist_ok=True)
+for d in ("evidence", ".work", "replays"):
+    os.makedirs(os.path.join(SV, d), exist_ok=True)
+for l in ("harness", "known_findings.json"):
+    if not os.path.lexists(os.path.join(SV, l)):
+        os.symlink(os.path.join("/verif", l), os.path.join(SV, l))
+rc, o = run(f"git apply {patch}", SR)
 if rc != 0:
-    print("cannot apply to /repo:", o)
+    print("cannot apply to scratch repo:", o)
     sys.exit(1)
+env["VERIF_REPO"], env["VERIF_DIR"] = SR, SV
 try:
     for cp in checkprops:
         t0 = time.time()
@@ -55,7 +67,7 @@ try:
         det[cp] = {"exit": rc, "violations": vio[:8], "wall_s": round(time.time() - t0, 1)}
         print(f"  check {cp}: exit={rc} wall={det[cp]['wall_s']}s", "; ".join(vio[:4])[:400])
 finally:
-    run("git checkout -- .", "/repo")
+    run("git checkout -- . && git clean -fdq", SR)
 meta["detected_by"] = det
 meta["detected"] = any(v["exit"] == 1 for v in det.values())
 dst = os.path.join("/verif/seeded", sid)
